@@ -4,6 +4,7 @@
 mod gen;
 mod json;
 mod props;
+mod real;
 mod realpath;
 mod transcript;
 mod reflang;
@@ -24,6 +25,7 @@ fn property(id: &str) -> Option<Box<dyn Property>> {
         "C10" => Some(Box::new(props::c10::C10)),
         "C11" => Some(Box::new(props::c11::C11)),
         "C12" => Some(Box::new(props::c12::C12)),
+        "C13" => Some(Box::new(props::c13::C13)),
         _ => None,
     }
 }
@@ -170,7 +172,7 @@ fn check(p: &dyn Property, a: &Args) -> i32 {
     println!("vsim {} tier={} VERIF_SEED={} runs={} workers={}", p.id(), a.tier.name(), a.seed, n, runner::workers());
     let mut res = runner::search(p, a.seed, a.tier, n, a.trace.as_deref());
     let mut first = res.first.take();
-    if first.is_none() {
+    if first.is_none() && std::env::var("VERIF_SKIP_REAL").is_err() {
         first = p.post(a.tier, a.seed, &mut res.stats);
     }
     let mut violations = 0;
